@@ -56,7 +56,9 @@
     * -k: the transition system of Dsh/ExitKill.lean is the fanout-UNCONSTRAINED one (any target may be started at any
       time); the executions of the real dispatcher are a subset, so the every-schedule theorems cover them, but "at most
       fanout siblings are in flight when the run is ended" is C04's statement, not repeated here.  Two threads calling
-      exit() at the same instant (two failures noticed at once) are one `exited` state of the model: the first wins.
+      exit() at the same instant (two failures noticed at once) are one `exited` state of the model: the first wins;
+      exit() is atomic in the model, in the real process the other threads run on until it has finished (a pending target
+      may still be started in that interval: recorded by the check, `k_started_during_exit`, not judged).
       `pthread_create` failing (dsh(): errx, with -k after `_fwd_signal`) needs fault injection: not modelled, not driven.
     * outside the domain (two marker lines for one target) the exit status of a -k run depends on how the output is cut
       into poll-loop iterations: kill_early_death_witness; the generator keeps to one marker line per target.
@@ -856,7 +858,11 @@ theorem kill_inband_every_schedule (fx : Fixes) (hd8 : fx.d8 = true) (hd9 : fx.d
         ended, not to those never started; in a mid-stream death that includes the dying target itself, in a teardown
         death it does not;
     (3) a sibling that had completed has its full final status, and it had succeeded (else IT would have ended the run);
-    (4) nothing happens afterwards: a target that was not yet started (`new`) never runs its command. -/
+    (4) the model takes no step afterwards.  NOTE: `exited` is the moment exit() is CALLED.  In the real process the other
+        threads run on until exit() has finished: a signalled sibling's worker ends and frees its slot, and the dispatcher
+        may still call rcmd_connect for a pending target (observed on the scripted transport, evidence
+        `k_started_during_exit`; the connection is cut off when the process ends).  (4) is a statement about the model
+        only; nothing in the property speaks about that interval. -/
 theorem kill_siblings (fx : Fixes) (fl : Flags) (ts : List Target) (evs : List Ev)
     {c : Nat} {how : How} {ps : List Phase} {sg : List Nat}
     (hx : exec fx fl ts (init ts) evs = some (.exited c how ps sg)) (hhow : how ≠ .returned) :
